@@ -134,8 +134,8 @@ def _address_binding_ok(st, subject, reqs):
             if hf.kind not in ("Account", "AccountLoader") or hf.inner != _type_last(hty):
                 tried.append("%s[address=%s: holder is %s, not Account<%s>]" % (f.name, e, hf.ty, _type_last(hty)))
                 continue
-            if holder != subject and not st.linked(holder, subject):
-                tried.append("%s[address=%s: `%s` is not linked to mutated account `%s`]" % (f.name, e, holder, subject))
+            if holder != subject and not st.identified(holder, subject):
+                tried.append("%s[address=%s: `%s` is not tied to the mutated account `%s` by an identifying constraint (has_one / key equality / seeds / the tier's (config, index) pair)]" % (f.name, e, holder, subject))
                 continue
             return True, "%s: Signer, address = %s, %s %s `%s`" % (f.name, e, holder, "is" if holder == subject else "linked to", subject)
     return False, "; ".join(tried) or "no Signer field with an address constraint"
